@@ -187,6 +187,8 @@ def gen_boot_triangle(rng):
 
     shape = rng.choice(["rect", "rect", "tri", "tri", "row", "col", "diag"])
     P, L = rng.randint(1, 6), rng.randint(1, 6)
+    if shape in ("rect", "tri") and rng.random() < 0.8:
+        P, L = max(P, 2), max(L, 2)
     res = rng.choice([3, 12, 6])
     n_slices = rng.choice([1, 1, 2, 3])
     fields = rng.sample(["paid_loss", "reported_loss", "earned_premium"], rng.randint(1, 3))
@@ -448,6 +450,11 @@ def boot_case(seed):
                     outv = [c[f] for c in rc]
                     if len(outv) != len(src):
                         fails.append("maximum entropy: length changed")
+                    # "within the given limits" L = (0, max(source)): monitored, not decided (the mean-preserving
+                    # shift of the algorithm can move a value past the limit)
+                    info["me_series"] = info.get("me_series", 0) + 1
+                    if max(outv) > max(src) * (1 + 1e-12) or min(outv) < 0:
+                        info["me_outside_limits"] = info.get("me_outside_limits", 0) + 1
                     bad = [(p, q) for p in range(len(src)) for q in range(len(src)) if src[p] < src[q] and outv[p] > outv[q]]
                     if bad:
                         fails.append(f"replicate {i}: maximum-entropy output does not keep the rank order of {f}: {bad[:2]}")
@@ -611,6 +618,8 @@ def run(ctx):
     ]
     ctx.audit_tree(["Model/Resample.v", "Proofs/ResampleP.v", "Props/C17.v"])
     ctx.prove_static("Props/C17.v", timeout=600)
+    if not ctx.quick:
+        coqchk(ctx)
     rng = random.Random(ctx.seed * 15485863 + 17)
     mult = 1 if ctx.quick else 8
     plan = [("thin", thin_case, 260 * mult), ("bootstrap", boot_case, 160 * mult), ("moment_match", mm_case, 160 * mult)]
@@ -630,6 +639,8 @@ def run(ctx):
             if kind == "bootstrap":
                 for m in info.get("methods", []):
                     ctx.hist(f"bootstrap:method={m}")
+                ctx.hist("bootstrap:max-entropy series", info.get("me_series", 0))
+                ctx.hist("bootstrap:max-entropy series leaving the limits (0, max) [monitor only]", info.get("me_outside_limits", 0))
             if out["n_cells"] >= 2 or info.get("outcome") != "returned":
                 ctx.nontriv((kind, seed))
             ctx.count(evaluations=1)
@@ -678,6 +689,18 @@ def run(ctx):
     if mism and nfail == 0:
         ctx.violation("correspondence", "model with the recorded draws and implementation disagree",
                       {"mode": "mismatch", "cases": [list(map(str, m)) for m in mism[:10]]}, found_input=False)
+
+
+
+def coqchk(ctx):
+    """thorough tier: re-check the compiled property file and everything it depends on with coqchk"""
+    from harness.common import COQ, sh
+
+    cmd = ["coqchk", "-silent", "-o", "-Q", str(COQ), "Bermuda", "Bermuda.Props.C17"]
+    ctx.checker_cmds.append(" ".join(cmd))
+    rc, out = sh(cmd, timeout=1800, cwd=COQ)
+    ok = rc == 0 and "Axioms: <none>" in " ".join(out.split())
+    ctx.obligation("coqchk Bermuda.Props.C17 (no axioms, no assumed positivity/guardedness)", ok, out[-800:])
 
 
 def replay(ctx, data):
